@@ -284,7 +284,21 @@ def run_check(prop, tier, repo, jobs, seed):
     spurious = 0
     replays_run = 0
     for key, lst in sorted(by_key.items()):
-        for r, v in lst[:3]:
+        # candidates to replay: the first three, then one per further distinct case taken from the end and
+        # the middle of the list (a counterexample that only exists because process-global state leaked from
+        # an earlier case of the same worker does not replay in a fresh process; one whose history lies inside
+        # its own case does) - the first that reproduces is reported, SPURIOUS only if none does
+        cands = list(lst[:3])
+        seen_cases = {(r["harness"], r["case_index"]) for r, _ in cands}
+        extra = list(reversed(lst[3:]))
+        extra = extra[:40] + extra[len(extra) // 2: len(extra) // 2 + 40]
+        for r, v in extra:
+            ck = (r["harness"], r["case_index"])
+            if ck not in seen_cases and len(cands) < 9:
+                seen_cases.add(ck)
+                cands.append((r, v))
+        tried_spurious = []
+        for r, v in cands:
             rp = {
                 "property": prop, "module": modname, "tier": tier, "harness": r["harness"],
                 "case_index": r["case_index"], "case": r["case"], "choices": v.get("choice_list", []),
@@ -299,8 +313,14 @@ def run_check(prop, tier, repo, jobs, seed):
             if p.returncode == 1 and "REPLAY-RESULT reproduced" in p.stdout:
                 reproduced.setdefault(key, (path, v))
                 break
-            spurious += 1
-            lines.append(f"SPURIOUS counterexample (did not replay) key={key} replay={path}")
+            tried_spurious.append(path)
+        for path in tried_spurious:
+            # non-reproducing candidates stay on record; they fail the run only when nothing reproduced for this key
+            if key in reproduced:
+                lines.append(f"NOTE counterexample did not replay in a fresh process (another one of the same key did) key={key} replay={path}")
+            else:
+                spurious += 1
+                lines.append(f"SPURIOUS counterexample (did not replay) key={key} replay={path}")
     # ---- crosshair verdicts ----------------------------------------------------
     xh_conf = xh_ref = xh_inc = 0
     for xr in xh_results:
